@@ -316,6 +316,33 @@ func (g *CondGen) valNear(p *Operand, wantT string) *Operand {
 var cmpOps = []string{"=", "<>", "<", "<=", ">", ">="}
 
 func (g *CondGen) atom() *Cond {
+	if _, ok := g.item.get("z0"); ok && g.r.Chance(10) {
+		z := &Operand{Kind: "val", Val: AV{T: "N", V: []byte(pick(g.r, zeroSpellings))}}
+		p := &Operand{Kind: "path", Root: []byte("z0")}
+		switch g.r.Intn(4) {
+		case 0:
+			return &Cond{K: "in", L: p, Ins: []Operand{{Kind: "val", Val: AV{T: "N", V: []byte("1")}}, *z}}
+		case 1:
+			return &Cond{K: "cmp", Op: pick(g.r, []string{"=", "<>", "<=", "<"}), L: p, R: z}
+		case 2:
+			return &Cond{K: "between", L: p, R: z, X: &Operand{Kind: "val", Val: AV{T: "N", V: []byte(pick(g.r, zeroSpellings))}}}
+		default:
+			return &Cond{K: "cmp", Op: "=", L: z, R: p}
+		}
+	}
+	if _, ok := g.item.get("lz"); ok && g.r.Chance(10) {
+		z := &Operand{Kind: "val", Val: AV{T: "N", V: []byte(pick(g.r, zeroSpellings))}}
+		lz := &Operand{Kind: "path", Root: []byte("lz")}
+		switch g.r.Intn(3) {
+		case 0:
+			return &Cond{K: "fn", Fn: "contains", Args: []Operand{*lz, *z}}
+		case 1:
+			return &Cond{K: "in", L: &Operand{Kind: "path", Root: []byte("lz"), Steps: []Step{{IsIdx: true, Idx: 0}}}, Ins: []Operand{*z}}
+		default:
+			lst := AV{T: "L", L: []AV{z.Val, S("a")}}
+			return &Cond{K: "cmp", Op: pick(g.r, []string{"=", "<>"}), L: lz, R: &Operand{Kind: "val", Val: lst}}
+		}
+	}
 	if g.r.Chance(8) {
 		// structural equality: a set, list or map against the same value written differently (set elements and
 		// map entries in another order, numerals respelt), or against a neighbour
